@@ -203,6 +203,11 @@ def merge_val(c, a, b):
     """value equal to a when c holds, b otherwise"""
     if a is b:
         return a
+    # untracked on one side only: keep the tracked side precise, havoc (fresh symbol of the same sort) on the other
+    if is_unk(a) and isz(b):
+        return z3.If(c, z3.Const(fresh_name('hv'), b.sort()), b)
+    if is_unk(b) and isz(a):
+        return z3.If(c, a, z3.Const(fresh_name('hv'), a.sort()))
     if isz(a) and isz(b):
         if a.sort() == b.sort():
             return a if z3.eq(a, b) else z3.If(c, a, b)
@@ -836,6 +841,8 @@ class Engine:
                 return st.env[e.id]
             return d.global_name(self, e.id, st)
         if isinstance(e, ast.Attribute):
+            if isinstance(e.value, ast.Name) and e.value.id not in st.env and e.value.id in ('np', 'LA', 'math', 'sys'):
+                return d.load_attr(self, UNK, e.attr, st, e)
             base = self.ev(e.value, st)
             return d.load_attr(self, base, e.attr, st, e)
         if isinstance(e, ast.Tuple):
